@@ -227,7 +227,7 @@ def impl_events(pdf, names):
             elif isinstance(o, LTCurve):
                 kind = 0 if isinstance(o, LTLine) else 1 if isinstance(o, LTRect) else 2
                 dash = [] if o.dashing_style is None else [opnd(o.dashing_style[0]), opnd(o.dashing_style[1])]
-                orig = [[ord(p[0]), [list(p[i:i + 2]) for i in range(1, len(p), 2)]] for p in (o.original_path or [])]
+                orig = [[ord(p[0]), [list(pt) for pt in p[1:]]] for p in (o.original_path or [])]
                 out.append([1, kind, [list(p) for p in o.pts], int(bool(o.stroke)), int(bool(o.fill)), int(bool(o.evenodd)),
                             o.linewidth, dash, col(o.stroking_color), col(o.non_stroking_color), orig])
     for page in PDFPage.get_pages(io.BytesIO(pdf)):
